@@ -2,9 +2,16 @@
 # params: per tier, name -> list of values (cartesian product = harness instances).
 
 PROPS = {}
+NOT_APPLICABLE = {}
 
 PROPS["C13"] = dict(
     level="proof",
+    level_text="Every obligation of the statement (zero Rate with an error, validity, >= minimum, Quantity 1 unless Interval == minimum, both speed bounds, "
+               "error only for the documented causes, Optimize/Flatten = Recalculate(10ms/0)) is one SMT query over the real SSA of Recalculate/recalculateQuantity/IsValid "
+               "with Interval, Quantity and minimum ranging over their whole 64-bit types; unsat = holds for every input. Counterexamples are replayed natively.",
+    level_note="Trusted: the gosym encoder (Int encoding with explicit mod 2^64 wrap), the math/big stub (mathematical integers, truncated Quo), z3. "
+               "No bound on magnitudes; the code has no loops. Not a proof-assistant proof: 'proof' here means all obligations discharged by the solver over the full domain.",
+    technique="symbolic execution of go/ssa, integer (non-bit-vector) SMT encoding, z3; whole 64-bit domain",
     explanation="Rate.Recalculate/Optimize/Flatten executed symbolically from go/ssa in the integer encoding "
                 "(machine words wrap via explicit mod 2^64, math/big = mathematical integers); every obligation is one SMT query "
                 "over the full int64/uint64 domain of (Interval, Quantity, minimum) - there is no magnitude bound.",
